@@ -179,6 +179,33 @@ def run_keep(ctx: Ctx) -> RuleResult:
     if not okp:
         res.finding(pat, pat.node, 'anonymous terminals are no longer marked "filter out iff string literal (and the rule is not !)"',
                     construct='keep:anon')
+    # rule modifiers: `?` and `!` may be written in either order (`!?x`, `?!x`), so each flag is a membership test on the
+    # modifier text, never a test of its position
+    mrt = repo.func('lark.load_grammar:_make_rule_tuple')
+    flags = {}
+    # (the locals are identified by the RuleOptions parameter they end up in, not by their names)
+    ro_calls = [c_ for c_ in mrt.body_nodes() if isinstance(c_, ast.Call) and norm(c_.func) == 'RuleOptions']
+    role = {}
+    if ro_calls:
+        for pn_, an_ in call_args_by_name(repo, ro_calls[0], 'lark.grammar:RuleOptions').items():
+            if pn_ in ('expand1', 'keep_all_tokens') and isinstance(an_, ast.Name):
+                role[an_.id] = pn_
+    for a_ in mrt.body_nodes():
+        if isinstance(a_, ast.Assign) and len(a_.targets) == 1 and isinstance(a_.targets[0], ast.Name) and a_.targets[0].id in role:
+            if isinstance(a_.value, ast.Constant):
+                continue
+            flags.setdefault(role[a_.targets[0].id], []).append(a_.value)
+    okm = set(flags) == {'expand1', 'keep_all_tokens'}
+    for nm_, vals in flags.items():
+        for v_ in vals:
+            if not (isinstance(v_, ast.Compare) and len(v_.ops) == 1 and isinstance(v_.ops[0], ast.In) and const_str(v_.left) in ('?', '!')
+                    and isinstance(v_.comparators[0], ast.Name)):
+                okm = False
+    res.ob('%s %s' % (mrt.loc(), mrt.qual), 'the ? and ! modifiers are recognised by membership in the modifier text (any order)', okm)
+    if not okm:
+        res.finding(mrt, mrt.node, 'a rule modifier is recognised by position (%s) rather than by membership: `?!rule` and `!?rule` no longer mean '
+                    'the same, and one spelling silently loses keep_all_tokens / expand1' % {k_: [norm(v_) for v_ in vs] for k_, vs in flags.items()},
+                    construct='keep:modifiers')
     pg = repo.func('lark.load_grammar:PrepareGrammar.terminal')
     okg = any(isinstance(n, ast.Call) and norm(n.func) == 'Terminal'
               and norm(call_args_by_name(repo, n, 'lark.grammar:Terminal').get('filter_out', ast.Constant(value=None))) == "name.startswith('_')"
@@ -451,10 +478,32 @@ def run_ambig_index(ctx: Ctx) -> RuleResult:
         res.finding(ae, ae.node, 'AmbiguousExpander uses the children of an _ambig child as alternatives without first merging nested _ambig '
                                  'nodes into it: a nested _ambig is then spliced in as if it were one derivation (unsound trees, lost derivations)',
                     construct='ambig-flatten')
+    # ... and the product replaces exactly the children found ambiguous (the local collected above), nothing more
+    amb_sets = find_pat(ae.body_nodes(), '$A.append($i)')
+    prod = find_pat(ae.body_nodes(), '[$c.children if $i in $$S else ($c,) for $i, $c in enumerate($ch)]', {'ch': cparam})
+    okp = len(prod) == 1 and bool(amb_sets) and prod[0][1]['$$S'] == amb_sets[0][1]['A'] and \
+        has_pat(ae.body_nodes(), 'if not $A:\n    return $$r', {'A': amb_sets[0][1]['A']})
+    res.ob('%s %s' % (ae.loc(), ae.qual), 'the alternatives product expands exactly the children that were found ambiguous', okp)
+    if not okp:
+        res.finding(ae, ae.node, 'AmbiguousExpander does not expand exactly the set of ambiguous children it collected (%s vs %s): a plain child '
+                    'in an expandable position is treated as a list of alternatives' % (
+                        prod[0][1]['$$S'] if prod else '?', amb_sets[0][1]['A'] if amb_sets else '?'), construct='ambig-product-set')
     esc = repo.func('lark.parse_tree_builder:ExpandSingleChild.__call__')
     body = ' '.join(norm(s) for s in esc.node.body)
-    ok = 'if len(children) == 1' in body and 'return children[0]' in body
-    res.ob('%s %s' % (esc.loc(), esc.qual), '?rule: replaced by its child iff it has exactly one', ok, props=['C03'])
+    from ..exprs import cond_values, bool_relation
+    escp = esc.positional_names()[0] if esc.positional_names() else 'children'
+    ok = False
+    for tgt_, test_, va_, vb_, _n in cond_values(esc.body_nodes()):
+        rel_ = bool_relation(test_, ast.parse('len(%s) == 1' % escp, mode='eval').body)
+        if rel_ == 'negated':
+            va_, vb_ = vb_, va_
+        if rel_ and tgt_ == 'return' and norm(va_) == '%s[0]' % escp and 'node_builder' in norm(vb_):
+            ok = True
+    res.ob('%s %s' % (esc.loc(), esc.qual), '?rule: replaced by its child iff it has exactly one', ok, props=['C03', 'C16'])
     if not ok:
-        res.finding(esc, esc.node, 'ExpandSingleChild no longer inlines exactly the single-child case', construct='expand1', props=['C03'])
+        res.finding(esc, esc.node, 'ExpandSingleChild no longer inlines exactly the single-child case (a child that is None / falsy is a '
+                    'child like any other: the embedded transformer may have returned it)', construct='expand1', props=['C03', 'C16'])
+    for f_ in res.findings:         # everything else here is about ambiguity / index bases
+        if f_.props is None:
+            f_.props = ['C03', 'C04']
     return res
